@@ -66,6 +66,7 @@ def scale_programs(rng, quick):
     P.append(('nested-if-else-chain', 'int f(int x) {\n' + ''.join('  if (x == %d) return %d; else\n' % (i, i) for i in range(d * 3)) + '  return -1; }\nint main(void) { return f(3); }\n'))
     m = rng.choice([20000, 50000]) * k
     P.append(('long-array-initializer', 'int a[] = {' + ','.join(str(i % 97) for i in range(m)) + '};\nint main(void) { return a[%d]; }\n' % (m - 1)))
+    P.append(('large-automatic-array-initializers', 'int printf(const char *, ...);\nstruct B { char b[%d]; };\nint main(void) { char buf[%d] = {0}; int a[%d] = {1, 2, [%d] = 3}; struct B x; x = (struct B){0}; char s[%d] = "abc"; return buf[5] + a[7] + x.b[3] + s[9]; }\n' % (m * 2, m * 2, m, m - 1, m * 3)))
     P.append(('long-string-literal', 'char s[] = "' + 'ab\\n' * (m // 2) + '";\nint main(void) { return s[5]; }\n'))
     P.append(('many-string-literals', 'char *t[] = {' + ','.join('"s%d"' % i for i in range(n * 2)) + '};\nint main(void) { return t[1][0]; }\n'))
     P.append(('long-identifier', 'int %s = 3;\nint main(void) { return %s; }\n' % ('v' * (m // 5), 'v' * (m // 5))))
